@@ -64,7 +64,7 @@ def main():
     m = {"version": 1, "setup_cmd": "tools/setup",
          "hooks": {"guard": "cargo feature verif-hooks", "enable": "harness/Cargo.toml: ggrs = { path = \"/repo\", features = [\"verif-hooks\"] }",
                    "baseline_off_cmd": "cd /repo && cargo test --workspace --no-fail-fast --offline",
-                   "source_commits": ["6876aad", "7427bc7"], "add_only": False},
+                   "source_commits": ["6876aad", "7427bc7", "a1582bf"], "add_only": False},
          "engines": [{"name": "coq", "path": "/verif/coq", "serves_properties": claimed, "kind_free_text": "Coq 8.16.1 development: executable Gallina models + theorems (props/Cxx.v hold statements only)"},
                      {"name": "harness", "path": "/verif/harness", "serves_properties": claimed, "kind_free_text": "Rust crate driving the real code through the verif-hooks feature: component levels (codec, builder, ...) and the L4 multi-session simulation with monitors"},
                      {"name": "driver", "path": "/verif/ocaml", "serves_properties": claimed, "kind_free_text": "OCaml driver around the extracted models (same op scripts as the harness)"}],
